@@ -273,7 +273,8 @@ Definition available_fields (v : cty) (blocked : list str) : option (list str) :
   | None => None
   | Some u =>
     Some (map clean_field_name
-              (filter (fun fld => negb (str_eqb fld BP_Dependencies) && negb (str_mem (strip_quotes fld) blocked))
+              (filter (fun fld => negb (str_eqb fld BP_Dependencies)
+                                  && negb (str_mem (strip_quotes (clean_field_name fld)) blocked))
                       (field_texts u)))
   end.
 
